@@ -267,7 +267,9 @@ WeakOrder(S, fl) == /\ \A x, y \in S : ~(Lt(x, y, fl) /\ Lt(y, x, fl))
 FAll(b) == [k \in FK |-> b]
 RefinesRank(S) == \A x, y \in S : T[x].py = T[y].py /\ T[x].r > T[y].r => Lt(x, y, FAll(FALSE))
 NonBuf(F) == {m \in Range(F) : T[m].k # "buf"}
-HzSort(F)      == ~WeakOrder(NonBuf(F), FAll(FALSE)) \/ ~RefinesRank(NumOf(F))
+\* (memoryview members take part with the id()-independent half of their comparison: nothing is lower than them
+\*  except non-complex numeric types -- a complex member is not, so [fc, int[:], dc] stays in declaration order)
+HzSort(F)      == ~WeakOrder(Range(F), FAll(FALSE)) \/ ~RefinesRank(NumOf(F))
 HzBool(F, a)   == A[a].cls = "bool" /\ "bint" \in Range(F) /\ \E m \in Range(F) : T[m].k = "int"
 \* does the answer of the modelled mapper meet the reference?
 DestOK(F, a, dst) == NoDemandSel(F, a) \/ (IF dst = "None" THEN RefSel(F, a) = {} ELSE dst \in RefSel(F, a))
